@@ -17,7 +17,7 @@ MODULES = ["mpc/binance/ecdsa", "mpc/binance/eddsa", "mpc/bls", "mpc/ps", "test"
 
 
 def sh(cmd, cwd=None, timeout=1800):
-    p = subprocess.run(cmd, shell=True, cwd=cwd, env=ENV, stdout=subprocess.PIPE, stderr=subprocess.STDOUT, timeout=timeout, text=True)
+    p = subprocess.run(cmd, shell=True, cwd=cwd, env=ENV, stdout=subprocess.PIPE, stderr=subprocess.STDOUT, timeout=timeout, text=True, errors="replace")
     return p.returncode, p.stdout
 
 
@@ -30,6 +30,7 @@ def module_of(path):
 
 def main():
     seed, wt, prop = sys.argv[1], sys.argv[2].rstrip("/"), sys.argv[3]
+    race = "-race " if "--race" in sys.argv else ""
     out = os.path.join("/verif/seeded", seed)
     os.makedirs(out, exist_ok=True)
     rc, patch = sh("git diff -- . ':(exclude)*_test.go' ':(exclude)SEED.md'", cwd=wt)
@@ -72,8 +73,8 @@ def main():
             okd = True
             for d in demos:
                 pkgdir = os.path.dirname(d) or "."
-                rc, o = sh("go test -vet=off -count=1 -timeout 5m -run 'TestSeed' .", cwd=os.path.join(root, pkgdir), timeout=900)
-                meta["ran"].append({"cmd": f"({label} change) cd {pkgdir} && go test -run TestSeed .", "exit": rc, "tail": o.strip().splitlines()[-4:]})
+                rc, o = sh("go test " + race + "-vet=off -count=1 -timeout 5m -run 'TestSeed' .", cwd=os.path.join(root, pkgdir), timeout=900)
+                meta["ran"].append({"cmd": f"({label} change) cd {pkgdir} && go test {race}-run TestSeed .", "exit": rc, "tail": o.strip().splitlines()[-4:]})
                 okd = okd and rc == 0
             res[label] = okd
         meta["demo_fails_with_change"] = not res["with"]
@@ -89,6 +90,7 @@ def main():
         try:
             man = json.load(open("/verif/MANIFEST.json"))
             with tempfile.TemporaryDirectory() as ev:
+                shutil.copy("/verif/known_findings.json", os.path.join(ev, "known_findings.json"))
                 for chk in man["checks"]:
                     pid = chk["property_id"]
                     rc2, o2 = sh(f"/verif/bin/tsscheck -property {pid} -tier quick -repo /repo -verif {ev}", cwd="/verif")
